@@ -131,6 +131,10 @@ func VerifyFunc(P *Program, c *Contract, maxPaths int) (res *FuncResult) {
 	}
 	st.mods = env.evalLocs(c.Modifies)
 	fv.entry = st.clone()
+	eenv := *env
+	eenv.st = fv.entry
+	st.mods = append(st.mods, eenv.evalEach(c.ModEach)...)
+	fv.entry.mods = st.mods
 	res.Vacuity = &Obligation{Func: fv.name, Kind: "requires-satisfiable", Name: fv.name + " / requires-satisfiable", Assump: append([]*Term(nil), st.pc...), Goal: nil, Pos: c.Pos}
 	outs := fv.execBody(fr, st, args, nil)
 	results := fn.Signature.Results()
@@ -162,6 +166,7 @@ func VerifyFunc(P *Program, c *Contract, maxPaths int) (res *FuncResult) {
 			pe := &Env{fv: fv, pkg: fv.pkgPath, st: fv.entry, vars: fv.entryEnv}
 			fv.oblige(o.st, "panics-when-promised", Not(pe.evalBool(c.PanicWhen)), fn.Pos())
 		}
+		fv.applyGhostDefs(post, o.st, c.GhostDefs)
 		for i, e := range c.Ensures {
 			fv.oblige(o.st, fmt.Sprintf("ensures #%d", i+1), post.evalBool(e), fn.Pos())
 		}
